@@ -1,10 +1,9 @@
 (* Model/UnitGlue.v — the glue of /repo/src/read/dwarf.rs between the section parsers, function by function:
      Unit::{new, new_with_abbreviations, copy_relocated_attributes, dwo_name},
      Dwarf::{abbreviations (empty cache), string_offset, string, line_string, sup_string, attr_string,
-             attr_line_string, address, attr_address, unit_ranges, lookup_offset_id, make_dwo},
+             attr_line_string, address, attr_address, unit_ranges, make_dwo},
      src/read/str.rs : DebugStr::get_str, DebugLineStr::get_str, DebugStrOffsetsBase::default_for_encoding_and_file,
-     src/read/line.rs : DebugLine::program (skip + LineProgramHeader::parse = LineRd.parse_header),
-     src/read/endian_slice.rs : Reader::lookup_offset_id
+     src/read/line.rs : DebugLine::program (skip + LineProgramHeader::parse = LineRd.parse_header)
    over the existing models: AbbrevRd (abbreviation table), DieRd (unit header, cursor, next_dfs/next_entry,
    attr_value), Attr (Attribute::value normalisation), ListsRd (get_str_offset, get_address, default lists base,
    die_ranges and the range iterator), LineRd (line program header).
@@ -12,25 +11,12 @@
 From Coq Require Import List NArith ZArith Bool.
 From Coq.Strings Require Import Byte.
 Require Import GV.Base.Res GV.Base.Byt GV.Base.Ints GV.Model.Leb GV.Model.Prim GV.Spec.FormSpec
-               GV.Model.Attr GV.Spec.Forest GV.Model.AbbrevRd GV.Model.DieRd GV.Spec.ListSpec.
+               GV.Model.Attr GV.Spec.Forest GV.Model.AbbrevRd GV.Model.DieRd GV.Spec.ListSpec GV.Spec.UnitGlueSpec.
 Require GV.Model.ListsRd GV.Spec.LineSpec GV.Model.LineRd.
 Import ListNotations.
 Local Open Scope N_scope.
 
-(* ------------------------------------------------------------------ constants.rs *)
-Definition DW_AT_name : N := 3.
-Definition DW_AT_low_pc : N := 17.
-Definition DW_AT_high_pc : N := 18.
-Definition DW_AT_comp_dir : N := 27.
-Definition DW_AT_str_offsets_base : N := 114.
-Definition DW_AT_addr_base : N := 115.
-Definition DW_AT_rnglists_base : N := 116.
-Definition DW_AT_dwo_name : N := 118.
-Definition DW_AT_loclists_base : N := 140.
-Definition DW_AT_GNU_dwo_name : N := 8496.     (* 0x2130 *)
-Definition DW_AT_GNU_dwo_id : N := 8497.       (* 0x2131 *)
-Definition DW_AT_GNU_ranges_base : N := 8498.  (* 0x2132 *)
-Definition DW_AT_GNU_addr_base : N := 8499.    (* 0x2133 *)
+(* constants.rs: the DW_AT_* names used here are defined once, in Spec/UnitGlueSpec.v *)
 
 (* ------------------------------------------------------------------ struct Dwarf<R>
    every section field; `dw_dwo` = (file_type == DwarfFileType::Dwo); `dw_be` = the readers' byte order;
@@ -324,49 +310,3 @@ Definition load_dwo_unit (dbg : bool) (dwo parent : dwarf) (skeleton : unit_t) (
   let d := make_dwo dwo parent in
   let* u := unit_new dbg d h in
   Ok (d, copy_relocated_attributes u skeleton).
-
-(* ------------------------------------------------------------------ Dwarf::lookup_offset_id
-   A ReaderOffsetId of a slice reader is an address. What the function reads of each section is only where it
-   lies: (start address, length). *)
-Inductive sid : Type :=
-| SAbbrev | SAddr | SAranges | SInfo | SLine | SLineStr | SMacinfo | SMacro | SNames | SStr | SStrOffsets
-| STypes | SLoc | SLocLists | SRanges | SRngLists.
-
-(* EndianSlice::lookup_offset_id: `id >= self_id && id <= self_id + self_len` (unchecked `+` on u64) *)
-Definition slice_lookup (dbg : bool) (place : N * N) (id : N) : res (option N) :=
-  let* e := chk_add 64 dbg (fst place) (snd place) in
-  if (fst place <=? id) && (id <=? e) then Ok (Some (id - fst place)) else Ok None.
-
-(* the `.or_else` chain: LocationLists::lookup_offset_id is debug_loc then debug_loclists,
-   RangeLists::lookup_offset_id is debug_ranges then debug_rnglists *)
-Definition lookup_order : list sid :=
-  [SAbbrev; SAddr; SAranges; SInfo; SLine; SLineStr; SStr; SStrOffsets; STypes; SLoc; SLocLists; SRanges; SRngLists].
-
-Fixpoint lookup_first (dbg : bool) (place : sid -> N * N) (l : list sid) (id : N) : res (option (sid * N)) :=
-  match l with
-  | [] => Ok None
-  | s :: t =>
-      let* o := slice_lookup dbg (place s) id in
-      match o with
-      | Some off => Ok (Some (s, off))
-      | None => lookup_first dbg place t id
-      end
-  end.
-
-(* Dwarf::lookup_offset_id for a Dwarf whose supplementary file (if any) has no supplementary file itself *)
-Definition lookup_offset_id (dbg : bool) (place : sid -> N * N) (sup : option (sid -> N * N)) (id : N)
-  : res (option (bool * sid * N)) :=
-  let* o := lookup_first dbg place lookup_order id in
-  match o with
-  | Some (s, off) => Ok (Some (false, s, off))
-  | None =>
-      match sup with
-      | None => Ok None
-      | Some sp =>
-          let* o' := lookup_first dbg sp lookup_order id in
-          match o' with
-          | Some (s, off) => Ok (Some (true, s, off))
-          | None => Ok None
-          end
-      end
-  end.
